@@ -135,6 +135,8 @@ impl Compactor {
         while let Some(batch) = iter.next_batch(None).await? {
             builder.append(batch.to_data_chunk());
         }
+        #[cfg(feature = "verif")]
+        crate::verif::point("compactor.after_read", &[table.table_id() as u64]).await;
 
         let rowset = builder.finish();
 
@@ -152,6 +154,8 @@ impl Compactor {
 
             let writer = RowsetWriter::new(&directory, self.storage.options.io_backend.clone());
             writer.create_dir().await?;
+            #[cfg(feature = "verif")]
+            crate::verif::crash_point("rowset.mkdir", &directory);
             writer.flush(rowset).await?;
 
             let rowset = DiskRowset::open(
@@ -184,7 +188,18 @@ impl Compactor {
             })
         }));
 
+        #[cfg(feature = "verif")]
+        crate::verif::point("compactor.before_commit", &[table.table_id() as u64]).await;
         self.storage.version.commit_changes(changes).await?;
+        #[cfg(feature = "verif")]
+        {
+            let mut args = vec![
+                table.table_id() as u64,
+                rowset_id.map(|x| x as u64).unwrap_or(u64::MAX),
+            ];
+            args.extend(selected_rowsets.iter().map(|x| x.rowset_id() as u64));
+            crate::verif::event("compactor.committed", &args);
+        }
 
         match rowset_id {
             Some(rowset_id) => {
@@ -210,7 +225,11 @@ impl Compactor {
             {
                 let tables = self.storage.tables.read().clone();
                 let pin_version = self.storage.version.pin();
+                #[cfg(feature = "verif")]
+                crate::verif::point("compactor.after_pin", &[pin_version.epoch]).await;
                 for (_, table) in tables {
+                    #[cfg(feature = "verif")]
+                    crate::verif::point("compactor.before_lock", &[table.table_id() as u64]).await;
                     if let Some(_guard) = self
                         .storage
                         .txn_mgr
@@ -220,6 +239,8 @@ impl Compactor {
                         warn!("failed to compact: {:?}", err);
                     }
                 }
+                #[cfg(feature = "verif")]
+                crate::verif::event("compactor.pass_end", &[pin_version.epoch]);
                 match self.stop.try_recv() {
                     Ok(_) => break,
                     Err(tokio::sync::oneshot::error::TryRecvError::Closed) => break,
